@@ -512,6 +512,15 @@ pub fn vectors(fam: model::Fam) -> Vec<Input> {
 pub fn run(env: &mut Env) -> RunResult {
     env.run_inputs(SUB_B3, &vectors(model::Fam::V3))?;
     env.run_inputs(SUB_B5, &vectors(model::Fam::V5))?;
+    // encodings of the boundary-size constructions (every length-field boundary, lists of 255 .. 65,537 entries): complete,
+    // well-formed frames that must be accepted with the values the bytes spell
+    let lim = env.tier.sel(3_000_000usize, 40_000_000usize);
+    let z3 = crate::sized::encoded_inputs::<V3>(env.thorough(), lim);
+    let k3 = z3.len() as u64;
+    env.run_enum(SUB_B3, k3, false, move |i| z3[i as usize].clone())?;
+    let z5 = crate::sized::encoded_inputs::<V5>(env.thorough(), lim);
+    let k5 = z5.len() as u64;
+    env.run_enum(SUB_B5, k5, false, move |i| z5[i as usize].clone())?;
     // every frame with a body of 0..=2 bytes and bodies of 3..=4 (thorough: 5) bytes over a reduced alphabet
     let sb = crate::shortframes::blocks(env.thorough(), env.tier.sel(4usize, 5usize));
     let kb = sb.len() as u64;
